@@ -171,7 +171,16 @@ def gen_samples(rng):
     vals = []
     for _ in range(n):
         r = rng.random()
-        if r < 0.3 and vals:
+        if r < 0.2 and vals:
+            # near ties: a few pages below (or above) an earlier sample — RSS jitter on a plateau;
+            # both values share their first four decimals in GiB
+            vals.append(max(page, rng.choice(vals) + rng.choice([-3, -2, -1, 1, 2]) * page))
+        elif r < 0.27:
+            # a plateau in the upper half of a 1e-4 GiB bucket, then slightly lower
+            k = rng.randint(1, 20000)
+            top = int((k + rng.uniform(0.55, 0.98)) * 1e-4 * 1024 ** 3) // page * page
+            vals.extend([top, top - rng.randint(1, 4) * page])
+        elif r < 0.35 and vals:
             vals.append(rng.choice(vals))                      # repeated value
         elif r < 0.5:
             vals.append(rng.choice([2 ** 29, 3 * 2 ** 28, 2 ** 30, 2 ** 18 * page]))   # short reprs
